@@ -1,0 +1,170 @@
+//! Verification hooks.
+//!
+//! Only compiled with feature `verif-hooks`. Every task spawned through
+//! [`exec::spawn`](crate::exec::spawn) is wrapped into an adapter that asks a
+//! thread-local [Controller] before each poll whether the task may run.
+//! Without an installed controller the adapter is not used at all.
+
+use std::{
+    cell::RefCell,
+    future::Future,
+    panic::Location,
+    pin::Pin,
+    sync::Arc,
+    task::{Context, Poll, Wake, Waker},
+};
+use tokio::task::JoinHandle;
+
+/// Cooperative budget Tokio hands to each task poll.
+pub const INITIAL_BUDGET: u32 = 128;
+
+/// Decision of the controller for a task that Tokio wants to poll.
+#[derive(Debug, Clone, Copy, PartialEq, Eq)]
+pub enum Decision {
+    /// Do not poll the task now; it re-queues itself.
+    Defer,
+    /// Do not poll the task and do not re-queue it.
+    Park,
+    /// Poll the task. If a value is given, the cooperative budget is
+    /// reduced to that many units before polling.
+    Run(Option<u32>),
+}
+
+/// Scheduling controller installed by a verification harness.
+pub trait Controller: Send + Sync + 'static {
+    /// A task is being spawned at the specified location.
+    fn register(&self, at: &'static Location<'static>) -> usize;
+    /// Tokio wants to poll the task.
+    fn before_poll(&self, id: usize) -> Decision;
+    /// The task has been polled; `budget_left` is the remaining cooperative budget.
+    fn after_poll(&self, id: usize, done: bool, budget_left: u32);
+    /// The task has been woken. May be called from any thread.
+    fn woken(&self, id: usize);
+    /// The task has been dropped without completing.
+    fn dropped(&self, id: usize);
+    /// Choose a port number for which `is_used` is false.
+    fn port_candidate(&self, is_used: &dyn Fn(u32) -> bool) -> Option<u32>;
+}
+
+thread_local! {
+    static CONTROLLER: RefCell<Option<Arc<dyn Controller>>> = const { RefCell::new(None) };
+}
+
+/// Installs or removes the controller of the current thread.
+pub fn install(controller: Option<Arc<dyn Controller>>) {
+    CONTROLLER.with(|c| *c.borrow_mut() = controller);
+}
+
+/// The controller of the current thread.
+pub fn current() -> Option<Arc<dyn Controller>> {
+    CONTROLLER.with(|c| c.borrow().clone())
+}
+
+struct CtlWaker {
+    id: usize,
+    ctl: Arc<dyn Controller>,
+    inner: Waker,
+}
+
+impl Wake for CtlWaker {
+    fn wake(self: Arc<Self>) {
+        self.wake_by_ref()
+    }
+
+    fn wake_by_ref(self: &Arc<Self>) {
+        self.ctl.woken(self.id);
+        self.inner.wake_by_ref();
+    }
+}
+
+struct Controlled<F: Future> {
+    id: usize,
+    ctl: Arc<dyn Controller>,
+    inner: Option<Pin<Box<F>>>,
+}
+
+/// Consumes cooperative budget units until `left` remain.
+fn burn_budget(left: u32) {
+    let waker = Waker::noop();
+    let mut cx = Context::from_waker(waker);
+    for _ in left..INITIAL_BUDGET {
+        match tokio::task::coop::poll_proceed(&mut cx) {
+            Poll::Ready(restore) => restore.made_progress(),
+            Poll::Pending => break,
+        }
+    }
+}
+
+/// Measures (and consumes) the remaining cooperative budget.
+fn measure_budget() -> u32 {
+    let waker = Waker::noop();
+    let mut cx = Context::from_waker(waker);
+    let mut left = 0;
+    while left <= INITIAL_BUDGET {
+        match tokio::task::coop::poll_proceed(&mut cx) {
+            Poll::Ready(restore) => {
+                restore.made_progress();
+                left += 1;
+            }
+            Poll::Pending => break,
+        }
+    }
+    left
+}
+
+impl<F: Future> Future for Controlled<F> {
+    type Output = F::Output;
+
+    fn poll(self: Pin<&mut Self>, cx: &mut Context<'_>) -> Poll<Self::Output> {
+        let this = Pin::into_inner(self);
+        match this.ctl.before_poll(this.id) {
+            Decision::Defer => {
+                cx.waker().wake_by_ref();
+                Poll::Pending
+            }
+            Decision::Park => Poll::Pending,
+            Decision::Run(budget) => {
+                if let Some(left) = budget {
+                    burn_budget(left);
+                }
+                let waker =
+                    Waker::from(Arc::new(CtlWaker { id: this.id, ctl: this.ctl.clone(), inner: cx.waker().clone() }));
+                let mut inner_cx = Context::from_waker(&waker);
+                let res = this.inner.as_mut().expect("controlled task polled after completion").as_mut().poll(&mut inner_cx);
+                let done = res.is_ready();
+                if done {
+                    this.inner = None;
+                }
+                let left = measure_budget();
+                this.ctl.after_poll(this.id, done, left);
+                res
+            }
+        }
+    }
+}
+
+impl<F: Future> Unpin for Controlled<F> {}
+
+impl<F: Future> Drop for Controlled<F> {
+    fn drop(&mut self) {
+        if self.inner.take().is_some() {
+            self.ctl.dropped(self.id);
+        }
+    }
+}
+
+/// Spawns a task that is scheduled by the installed controller.
+#[track_caller]
+pub fn spawn<F>(future: F) -> JoinHandle<F::Output>
+where
+    F: Future + Send + 'static,
+    F::Output: Send + 'static,
+{
+    match current() {
+        Some(ctl) => {
+            let id = ctl.register(Location::caller());
+            tokio::task::spawn(Controlled { id, ctl, inner: Some(Box::pin(future)) })
+        }
+        None => tokio::task::spawn(future),
+    }
+}
